@@ -2,7 +2,7 @@
 # usage: tools/try_mutant.sh <patch.diff> <property-id>... [-- extra check args]
 # Applies the patch to /repo, runs the quick check(s), always restores /repo.
 # Exit status: 0 = at least one check reported a VIOLATION (mutant caught), 1 = missed, 2 = problem.
-patch=$1; shift
+patch=$(readlink -f "$1"); shift
 cd /repo || exit 2
 if ! git diff --quiet; then echo "try_mutant: /repo has uncommitted changes" >&2; exit 2; fi
 git apply "$patch" || { echo "try_mutant: patch does not apply" >&2; exit 2; }
